@@ -467,6 +467,197 @@ def r11_designator_levels(ctx):
              '' if ok2 else 'the lookup inside the element uses `%s`: the component fetched is not the one the path names' % [norm(c.args[0]) for c in second])
 
 
+class _NV(object):
+    """view of a model node with the interface the loader code uses on a map node (for interpretation of that code)"""
+    _sa_model = True
+
+    def __init__(self, ms, n, fns):
+        self._ms, self._n, self._fns = ms, n, fns
+        self.id = n.id
+        self.usage = n.usage
+        self.pos = n.pos
+        self.path = n.id
+        self.valid_codes = tuple(n.codes)
+        self.children = tuple(_NV(ms, c, fns) for c in (n.children if n.kind in ('segment', 'composite') else ()))
+        self.pos_map = {}
+        if n.kind in ('loop', 'map'):
+            for c in n.children:
+                self.pos_map.setdefault(c.pos, ())
+                self.pos_map[c.pos] += (_NV(ms, c, fns),)
+
+    def is_segment(self):
+        return self._n.kind == 'segment'
+
+    def is_loop(self):
+        return self._n.kind == 'loop'
+
+    def is_element(self):
+        return self._n.kind == 'element'
+
+    def is_composite(self):
+        return self._n.kind == 'composite'
+
+    def is_map_root(self):
+        return self._n.kind == 'map'
+
+    def get_data_type(self):
+        return self._ms.dtype(self._n)
+
+    def guess_unique_key_id_element(self):
+        kind, v = _interp(self._fns['guess'].body, {'self': self}, [])
+        return v
+
+
+def _interp(stmts, env, effects):
+    """execute straight-line loader code over model views: if / for over a closed iterable / local assignment /
+    attribute store (recorded in `effects`) / return.  Anything else raises NotClosed."""
+    for st in stmts:
+        if isinstance(st, ast.Expr) and isinstance(st.value, ast.Constant):
+            continue
+        if isinstance(st, ast.Pass):
+            continue
+        if isinstance(st, ast.If):
+            r = _interp(st.body if A.ev(st.test, env) else st.orelse, env, effects)
+            if r[0] != 'next':
+                return r
+        elif isinstance(st, ast.Return):
+            return 'ret', (A.ev(st.value, env) if st.value is not None else None)
+        elif isinstance(st, ast.Continue):
+            return 'continue', None
+        elif isinstance(st, ast.For) and isinstance(st.target, ast.Name) and not st.orelse:
+            it = A.ev(st.iter, env)
+            if not isinstance(it, (tuple, list)):
+                raise A.NotClosed('iterable')
+            for item in it:
+                env[st.target.id] = item
+                r = _interp(st.body, env, effects)
+                if r[0] == 'ret':
+                    return r
+        elif isinstance(st, ast.Assign) and len(st.targets) == 1 and isinstance(st.targets[0], ast.Name):
+            env[st.targets[0].id] = A.ev(st.value, env)
+        elif isinstance(st, ast.Assign) and len(st.targets) == 1 and isinstance(st.targets[0], ast.Attribute):
+            obj = A.ev(st.targets[0].value, env)
+            val = A.ev(st.value, env)
+            effects.append((obj, st.targets[0].attr, val))
+            if getattr(obj, '_sa_model', False):
+                setattr(obj, st.targets[0].attr, val)
+        elif isinstance(st, ast.AugAssign) and isinstance(st.target, ast.Attribute) and isinstance(st.op, ast.Add):
+            obj = A.ev(st.target.value, env)
+            val = getattr(obj, st.target.attr) + A.ev(st.value, env)
+            effects.append((obj, st.target.attr, val))
+            setattr(obj, st.target.attr, val)
+        else:
+            raise A.NotClosed('statement ' + norm(st, 60))
+    return 'next', None
+
+
+def r13_suffix_code_over_data(ctx):
+    """R5/R6 (and the walker's per-path counters, C02) work on node paths computed with the qualifier suffix the way the
+    model computes it.  That speaks for the running code only if loop_if.__init__ puts the same suffix on the same
+    nodes: its suffix loop and segment_if.guess_unique_key_id_element are interpreted here over every loop of every
+    shipped map, and the path of every same-position segment compared with the model's."""
+    fn = ctx.func('map_if', 'loop_if.__init__')
+    guess = ctx.func('map_if', 'segment_if.guess_unique_key_id_element')
+    tail = [st for st in fn.body if isinstance(st, ast.For) and any(
+        isinstance(x, (ast.Assign, ast.AugAssign)) and isinstance((x.targets[0] if isinstance(x, ast.Assign) else x.target), ast.Attribute)
+        and (x.targets[0] if isinstance(x, ast.Assign) else x.target).attr == 'path' for x in ast.walk(st))]
+    if len(tail) != 1:
+        raise AnalysisError('loop_if.__init__: the loop that makes same-position segment paths unique was not found')
+    ms = ctx.maps
+    fns = {'guess': guess}
+    n_groups = 0
+    for f in D.scope_files(ctx):
+        m = ms.map(f)
+        if m is None:
+            continue
+        for lp in m.walk():
+            if lp.kind != 'loop':
+                continue
+            bypos = {}
+            for c in lp.children:
+                bypos.setdefault(c.pos, []).append(c)
+            if not any(len(v) > 1 for v in bypos.values()):
+                continue
+            view = _NV(ms, lp, fns)
+            try:
+                _interp(tail, {'self': view}, [])
+            except A.NotClosed as e:
+                raise AnalysisError('loop_if.__init__: the path-suffix code cannot be interpreted over the map data (%s)' % e)
+            except (IndexError, TypeError, AttributeError, KeyError) as e:
+                yield Ob('%s path suffixes as the loader computes them' % D.nodekey(lp), False, D.where(lp),
+                         'the loader code raises %s: %s on this loop' % (type(e).__name__, e))
+                continue
+            bad = []
+            for pos, views in view.pos_map.items():
+                for v in views:
+                    if v._n.kind == 'segment' and len(views) > 1:
+                        n_groups += 1
+                        if v.path != v._n.path_component():
+                            bad.append((v._n.path_component(), v.path))
+            yield Ob('%s path suffixes as the loader computes them' % D.nodekey(lp), not bad, D.where(lp),
+                     '' if not bad else 'loop_if.__init__ gives the same-position segment %s the path component %s: segments that share '
+                     'id and position then share one path (one counter in the walker, not found again by its own path)' % bad[0])
+    if n_groups < 400:
+        raise AnalysisError('only %d same-position segments interpreted' % n_groups)
+
+
+def r12_lookup_by_own_key(ctx):
+    """the index is only unambiguous if the lookup uses the whole key: get_filename / get_abbr read every key field they
+    are given (a parameter that is never read cannot separate the entries that differ in it - and the index has such
+    entries), and where the lookup is the scan `for a in self.maps: if <cond>: return a[..]` the condition is evaluated
+    over the real index: asking for an entry by its own (icvn, vriic, fic, tspc) returns that entry"""
+    ents = ctx.maps.index
+    fields = ('icvn', 'vriic', 'fic', 'tspc')
+    afn = ctx.func('map_index', 'map_index.add_map')
+    for qual, want in (('map_index.get_filename', 'file'), ('map_index.get_abbr', None)):
+        fn = ctx.func('map_index', qual)
+        params = [a.arg for a in fn.args.args][1:]
+        if params[:4] != list(fields):
+            raise AnalysisError('%s: parameters %s' % (qual, params))
+        used = {x.id for x in ast.walk(fn) if isinstance(x, ast.Name) and isinstance(x.ctx, ast.Load)}
+        for k in fields:
+            # entries that differ only in this field
+            others = [f_ for f_ in fields if f_ != k]
+            groups = {}
+            for e in ents:
+                groups.setdefault(tuple(e[o] for o in others), set()).add(e[k])
+            witness = [g_ for g_, vals in groups.items() if len(vals) > 1]
+            ok = k in used or not witness
+            yield Ob('map_index:%s reads the key field %s' % (qual, k), ok, ctx.floc(fn),
+                     '' if ok else 'the parameter %s is never read, but %d group(s) of index entries differ only in %s (e.g. %s): '
+                     'one of them answers for the others' % (k, len(witness), k, dict(zip(others, witness[0]))))
+        scans = [n for n in fn.body if isinstance(n, ast.For) and path_of(n.iter) == 'self.maps' and isinstance(n.target, ast.Name)
+                 and len(n.body) == 1 and isinstance(n.body[0], ast.If) and len(n.body[0].body) == 1 and isinstance(n.body[0].body[0], ast.Return)]
+        if len(scans) != 1 or want is None:
+            continue
+        # field names under which add_map stores what the index gives
+        stored = [d for d in ast.walk(afn) if isinstance(d, ast.Dict)]
+        if len(stored) != 1:
+            continue
+        names = {A.const(k_): path_of(v_) for k_, v_ in zip(stored[0].keys, stored[0].values)}
+        var = scans[0].target.id
+        cond = scans[0].body[0].test
+        ret = scans[0].body[0].body[0].value
+        rows = [{nm: (e['file'] if src == 'map_file' else e.get(src)) for nm, src in names.items()} for e in ents]
+        bad = None
+        try:
+            for e, row in zip(ents, rows):
+                got = None
+                for r_ in rows:
+                    env = {var: r_}
+                    env.update({k: e[k] for k in fields})
+                    if A.ev(cond, env):
+                        got = A.ev(ret, env)
+                        break
+                if got != e['file'] and bad is None:
+                    bad = (e, got)
+        except (A.NotClosed, KeyError, TypeError) as ex:
+            raise AnalysisError('%s: lookup condition cannot be evaluated over the index (%s)' % (qual, ex))
+        yield Ob('map_index:%s finds every index entry by its own key' % qual, bad is None, ctx.floc(fn, scans[0]),
+                 '' if bad is None else 'asking for icvn=%s vriic=%s fic=%s tspc=%s gives %s, the index says %s'
+                 % (bad[0]['icvn'], bad[0]['vriic'], bad[0]['fic'], bad[0]['tspc'], bad[1], bad[0]['file']))
+
+
 RULES = [
     Rule('C16.R1', 'index entries name existing well-formed maps; keys unambiguous; packaged', r1_index, floor=30),
     Rule('C16.R2', 'every data_ele / external code reference resolves; dataele lengths sane', r2_refs, floor=20000),
@@ -478,5 +669,7 @@ RULES = [
     Rule('C16.R8', 'model field names = constructor field names; accessor pairs read one name', r8_model_fields, floor=6),
     Rule('C16.R9', 'loaded map nodes are read-only outside their constructors (only parameterless path caches)', r9_nodes_immutable, floor=2),
     Rule('C16.R10', 'the table loaders store every entry of codes.xml / dataele.xml / maps.xml', r10_loaders_keep_every_entry, floor=3),
+    Rule('C16.R12', 'index lookups read the whole key; the scan condition finds every entry by its own key (evaluated over maps.xml)', r12_lookup_by_own_key, floor=6),
+    Rule('C16.R13', 'loop_if.__init__ / guess_unique_key_id_element interpreted over every map: same-position segments get the model\'s qualifier suffix', r13_suffix_code_over_data, floor=100),
     Rule('C16.R11', 'getnodebypath2 uses the element index for the element and the component index for the component', r11_designator_levels, floor=2),
 ]
